@@ -186,3 +186,58 @@ Proof.
     apply get_views_all in He. exact He. }
   destruct (holds_only_all ao regs _ _ _ E x Hall) as [A B]. rewrite B. simpl. tauto.
 Qed.
+
+(* ================================================================== *)
+(* not_(P) and P never hash alike (Notted.phash prefixes the mark), so sibling views that differ
+   only by not_() around one predicate are distinct registrations *)
+
+Lemma phash_of_final_pred_ok : phash_of_final_pred = true.
+Proof. reflexivity. Qed.
+
+Lemma not_mark_nonempty : (0 < length not_mark)%nat.
+Proof. vm_compute. lia. Qed.
+
+Theorem notted_phash_differs p :
+  nonempty (pred_phash p) = true -> pred_phash (PNot p) <> pred_phash p.
+Proof.
+  intros Hne E. cbn [pred_phash] in E. cbv zeta in E. rewrite Hne in E.
+  apply (f_equal (@length N)) in E. rewrite app_length in E. pose proof not_mark_nonempty. lia.
+Qed.
+
+Lemma concat_length {A} (l : list (list A)) : length (concat l) = list_sum (map (@length A) l).
+Proof. induction l as [|x l IH]; simpl; [reflexivity|]. rewrite app_length, IH. reflexivity. Qed.
+
+Theorem notted_sibling_phash_differs l1 l2 p :
+  nonempty (pred_phash p) = true ->
+  concat (map pred_phash (l1 ++ PNot p :: l2)) <> concat (map pred_phash (l1 ++ p :: l2)).
+Proof.
+  intros Hne E. apply (f_equal (@length N)) in E.
+  rewrite !map_app, !concat_app in E. cbn [map concat pred_phash] in E. cbv zeta in E. rewrite Hne in E.
+  rewrite !app_length in E. pose proof not_mark_nonempty. lia.
+Qed.
+
+(* hence the two registrations have different keys: the hypothesis [NoDup (map key regs)] of
+   lookup_winner holds of such a pair *)
+Theorem notted_sibling_distinct_keys a b l1 l2 p :
+  reg_wf a -> reg_wf b -> r_preds a = l1 ++ p :: l2 -> r_preds b = l1 ++ PNot p :: l2 ->
+  nonempty (pred_phash p) = true -> NoDup (map key [a; b]).
+Proof.
+  intros Ha Hb Ea Eb Hne. simpl. constructor; [|constructor; [intros []|constructor]].
+  intros [H|[]]. unfold key in H. injection H as _ H. unfold reg_wf in Ha, Hb.
+  rewrite Ha, Hb, Ea, Eb in H. exact (notted_sibling_phash_differs l1 l2 p Hne H).
+Qed.
+
+(* what make computes for not_(value): the Notted wrapper of what it computes for value, same weight *)
+Theorem make_vals_notted name n v acc :
+  make_vals name n [(true, v)] acc =
+  match make_vals name n [(false, v)] acc with
+  | Some (ps, ws) => match rev ps with
+                     | p :: r => Some (rev (PNot p :: r), ws)
+                     | [] => None
+                     end
+  | None => None
+  end.
+Proof.
+  simpl. destruct (factory name v) as [p|]; simpl; [|reflexivity].
+  rewrite rev_app_distr. simpl. rewrite rev_involutive. reflexivity.
+Qed.
